@@ -186,14 +186,36 @@ def gen_case(rng):
         defs.append([rng.choice(PMACS), ["P", rng.random() < 0.5, rng.choice(names)]])
     incs = [rng.choice(names) for _ in range(rng.choice([0, 0, 0, 1, 1, 2]))]
     entry = [main, dirs, defs, incs]
+    more = []
+    if rng.random() < 0.3:
+        # further commands of the same platform: other compiled files (or the same one) with
+        # their own -I order / -D set - nothing found or defined for one may leak into the next
+        for j in range(rng.randint(1, 2)):
+            m2 = ["src", f"b{j}.c"]
+            b2 = decorate(rng, gen_body(rng, names, 0, 12), ["src"])
+            b2 = [["Inc", [rng.choice(["Q", "A"]), rng.choice(names)]]] + b2
+            files[pstr(m2)] = [m2, normalise(b2)]
+            d2 = list(dirs)
+            rng.shuffle(d2)
+            if rng.random() < 0.4:
+                d2 = rng.sample(DIRS, rng.randint(0, 3))
+            more.append([m2, d2, [d for d in defs if rng.random() < 0.7], []])
     if dirs and rng.random() < 0.45:
         # the directories are given on a command line as -I / -isystem (1 = -isystem) and go
         # through config.ArgumentParser.parse_args
         entry.append([1 if rng.random() < 0.5 else 0 for _ in dirs])
+    if more:
+        return [sorted(files.values(), key=lambda f: f[0]), entry, more]
     return [sorted(files.values(), key=lambda f: f[0]), entry]
 
 
 CORPUS_EXTRA = [
+    # two commands of one platform with opposite -I order: each resolves <h.h> along ITS OWN list
+    [[[["inc1", "h.h"], [["Def", "FROM_1", "E"]]], [["inc2", "h.h"], [["Def", "FROM_2", "E"]]],
+      [["src", "a.c"], [["Inc", ["A", ["h.h"]]], ["If", ["Defd", "FROM_1"]], ["Code"], ["Endif"]]],
+      [["src", "b0.c"], [["Inc", ["A", ["h.h"]]], ["If", ["Defd", "FROM_2"]], ["Code"], ["Endif"]]]],
+     [["src", "a.c"], [["inc1"], ["inc2"]], [], []],
+     [[["src", "b0.c"], [["inc2"], ["inc1"]], [], []]]],
     # -isystem before -I on the command line: a compiler still searches the -I directory first
     [[[["inc1", "h.h"], [["Def", "FROM_I", "E"]]], [["inc2", "h.h"], [["Def", "FROM_SYS", "E"]]],
       [["src", "a.c"], [["Inc", ["A", ["h.h"]]], ["If", ["Defd", "FROM_I"]], ["Code"], ["Endif"]]]],
@@ -242,12 +264,14 @@ class C04(Check):
         return out
 
     def encode(self, case):
-        files, entry = case
+        files, entry = case[0], case[1]
+        if len(case) > 2:
+            return enc([[[p, ls] for p, ls in files], entry, case[2]])
         return enc([[[p, ls] for p, ls in files], entry])
 
     # ---- implementation ----
     def materialise(self, case, root):
-        files, entry = case
+        files, entry = case[0], case[1]
         if root.exists():
             shutil.rmtree(root)
         root.mkdir(parents=True)
@@ -266,7 +290,8 @@ class C04(Check):
         logging.disable(logging.CRITICAL)
         import codebasin
         from codebasin import finder, platform as cbplatform, preprocessor
-        files, entry = case
+        files, entry = case[0], case[1]
+        more = case[2] if len(case) > 2 else []
         root = common.scratch() / "c04"
         shapes = self.materialise(case, root)
         main, dirs, defs, incs = entry[:4]
@@ -313,6 +338,18 @@ class C04(Check):
             cfg = {"P": [{"file": str(root.joinpath(*main)), "defines": defines,
                           "include_paths": ipaths,
                           "include_files": [pstr(n) for n in incs]}]}
+            for (m2, d2, f2, i2) in more:
+                defs2 = []
+                for m, v in f2:
+                    if v == "E":
+                        defs2.append(f"{m}=")
+                    elif isinstance(v, list):
+                        defs2.append(f"{m}=<{pstr(v[2])}>" if v[1] else f'{m}="{pstr(v[2])}"')
+                    else:
+                        defs2.append(f"{m}={v}")
+                cfg["P"].append({"file": str(root.joinpath(*m2)), "defines": defs2,
+                                 "include_paths": [str(root.joinpath(*d)) for d in d2],
+                                 "include_files": [pstr(n) for n in i2]})
             try:
                 state = finder.find(str(root), cb, cfg)
             except RecursionError:
@@ -382,7 +419,7 @@ class C04(Check):
             return False
         if sa[2]:
             return False          # a missing header: gcc rejects, C18's subject
-        files, entry = case
+        files, entry = case[0], case[1]
         if not all(balanced(ls) for _, ls in files):
             return False
         # a missing forced include is diagnosed by gcc
@@ -407,6 +444,14 @@ class C04(Check):
         return len(attributed_files) >= 2 and any(v >= 2 for v in names.values()) and len(ia[1]) < total_nodes
 
     def shrink(self, case, still_fails):
+        if len(case) > 2:
+            # several commands: first try to do without the later ones, then shrink the files only
+            if still_fails([case[0], case[1]]):
+                return self.shrink([case[0], case[1]], still_fails)
+            more = common.shrink_list(case[2], lambda m: bool(m) and still_fails([case[0], case[1], m]))
+            keep = {pstr(case[1][0])} | {pstr(e[0]) for e in more}
+            files = common.shrink_list(case[0], lambda fs: keep <= {pstr(f[0]) for f in fs} and still_fails([fs, case[1], more]))
+            return [files, case[1], more]
         files, entry = case
         # drop files, then shrink each file's lines, then the entry
         files = common.shrink_list(files, lambda fs: any(f[0] == entry[0] for f in fs) and still_fails([fs, entry]))
@@ -453,6 +498,8 @@ class C04(Check):
         problems = []
         for c, a in zip(cases, answers):
             sa = self.spec(c, a)
+            if len(c) > 2:
+                continue          # the gcc oracle validates S on single translation units
             files, entry = c
             main, dirs, defs, incs = entry[:4]
             kinds = entry[4] if len(entry) > 4 else [0] * len(dirs)
